@@ -71,7 +71,7 @@ def build(mir, cube):
             def decode(self, m): return {'used': 'header-charset' if ev(m, used_header) else 'detected-charset'}
         # natively replayable: the module decodes at all (decoder succeeds) and the scheme is one a module can be parsed under
         real = [eng.cfg['decode_ok_tag'] == 0, z3.Or([eng.cfg['scheme'][0] == SCHEMES.index(x) for x in ('file', 'https', 'http')])]
-        qs.append(Query('decoder-is-called-exactly-once', z3.Not(z3.PbEq([(g, 1) for g, _ in calls], 1)) if calls else z3.BoolVal(True)))
+        qs.append(Query('decoder-is-called-exactly-once', z3.Not(z3.And(Or(g for g, _ in calls), And(z3.Not(z3.And(calls[i][0], calls[j][0])) for i in range(len(calls)) for j in range(i + 1, len(calls))))) if calls else z3.BoolVal(True)))
         qs.append(Query('header-charset-wins-else-detected-charset', Or(wrong), ops=[OpCs()], world=W(), realizable=real))
         qs.append(Query('witness-header-charset-used', z3.And(has_header, used_header), expect='sat', kind='witness', ops=[OpCs()], world=W(), realizable=real))
         ok = r.vars[0].f[0]
